@@ -7,6 +7,7 @@
    finite operation sequence (reachable_inv).  No bound on block length or history length anywhere.      *)
 From CssV Require Import Base StyleDecl StyleDeclFacts StyleDeclText StyleDeclTextFacts.
 From CssV Require Tokenizer Skeleton SkeletonFacts.
+From CssV Require Import StyleDeclAlias StyleDeclAliasFacts.
 
 Section C11.
   Variable norm : str -> str.
@@ -226,7 +227,7 @@ Section C11_text.
   Variable norm : str -> str.
   Variable attrs : list (str * str).
   Variable settable : list str.
-  Variable decl_digest : list CssV.Tokenizer.tok -> option (str * val * bool).
+  Variable decl_digest : list CssV.Tokenizer.tok -> option (str * val * bool) * bool.
   Variable at_digest : list CssV.Tokenizer.tok -> option N.
   Variable comment_id : CssV.Tokenizer.tok -> N.
 
@@ -273,10 +274,59 @@ Section C11_text.
   Proof. exact (StyleDeclTextFacts.settext_junk_same_block norm attrs settable decl_digest at_digest comment_id). Qed.
 End C11_text.
 
+(* the declaration parse inside the model (Property.cssText on one run; only the value run is opaque) *)
+Theorem name_parse_spec : forall ts l,
+  name_parse ts None true = (Some l, true) <->
+  exists a t b, ts = a ++ t :: b /\ forallb blank a = true /\ forallb blank b = true /\
+                tyis t "IDENT" = true /\ blank t = false /\ l = CssV.Tokenizer.lower (CssV.Tokenizer.val t).
+Proof. exact StyleDeclTextFacts.name_parse_spec. Qed.
+
+Theorem decl_parse_dropped_is_error : forall norm valof run e,
+  decl_parse norm valof run = (None, e) -> e = true.
+Proof. exact StyleDeclTextFacts.decl_parse_dropped_is_error. Qed.
+
 Example settext_nonvacuous :
   fst (text_items dg (fun _ => None) (fun _ => 7%N) (SkeletonFacts.decl_x ++ SkeletonFacts.junk_paren ++ SkeletonFacts.decl_z))
   = [DDecl (s "x") 1%N false; DDecl (s "z") 1%N false].
 Proof. exact (proj1 settext_ex). Qed.
+
+(* ---- Property OBJECTS: when the value-passing model above is exact.
+   Blocks hold references into a heap of Property objects (StyleDeclAlias.v).  The model of this file is exact for
+   every world in which no object is referenced twice (Separated); setProperty(name, ...) builds a fresh object and
+   keeps it so; setProperty(<Property p>) with p already stored somewhere leaves that class, and then a write through
+   one block shows through every other reference (documented exclusion of the history theorems). *)
+Theorem write_invisible_elsewhere : forall h o p b,
+  ~ In o (refs b) -> view (upd h o p) b = view h b.
+Proof. exact StyleDeclAliasFacts.write_invisible_elsewhere. Qed.
+
+Theorem write_visible_through_every_reference : forall h o p b j,
+  nth_error b j = Some (AProp o) -> nth_error (view (upd h o p) b) j = Some (Some (IProp p)).
+Proof. exact StyleDeclAliasFacts.write_visible_through_every_reference. Qed.
+
+Theorem write_is_replace_at : forall h o p v im b i,
+  NoDup (refs b) -> nth_error b i = Some (AProp o) -> h o = Some p ->
+  forall j, nth_error (view (overwrite h o v im) b) j =
+            if Nat.eqb j i then Some (Some (IProp (set_vp p v im))) else nth_error (view h b) j.
+Proof. exact StyleDeclAliasFacts.write_is_replace_at. Qed.
+
+Theorem separated_write_local : forall h o v im b bs,
+  Separated (b :: bs) -> In o (refs b) -> Forall (fun b' => view (overwrite h o v im) b' = view h b') bs.
+Proof. exact StyleDeclAliasFacts.separated_write_local. Qed.
+
+Theorem append_fresh_separated : forall o b bs,
+  Separated (b :: bs) -> ~ In o (flat_map refs (b :: bs)) -> Separated (append_ref b o :: bs).
+Proof. exact StyleDeclAliasFacts.append_fresh_separated. Qed.
+
+(* the same object appended to two blocks: overwriting through the first is seen in the second *)
+Example shared_object_witness :
+  let h := upd (fun _ => None) 1%N (mkProp (s "color") (s "color") 1%N false) in
+  let a := append_ref [] 1%N in let b := append_ref [AOther (IComment 2%N)] 1%N in
+  ~ Separated [a; b] /\
+  view (overwrite h 1%N 9%N true) b = [Some (IComment 2%N); Some (IProp (mkProp (s "color") (s "color") 9%N true))].
+Proof.
+  cbv zeta. split; [|vm_compute; reflexivity].
+  unfold Separated. vm_compute. intros H. inversion H as [|? ? Hx _]; subst. apply Hx. simpl. auto.
+Qed.
 
 (* ---- finite statements over the tables regenerated from cssproperties.py / profiles.py on every run *)
 
@@ -404,6 +454,13 @@ Print Assumptions reachable_inv_with_text.
 Print Assumptions settext_props.
 Print Assumptions text_items_app.
 Print Assumptions settext_junk_same_block.
+Print Assumptions name_parse_spec.
+Print Assumptions decl_parse_dropped_is_error.
+Print Assumptions write_invisible_elsewhere.
+Print Assumptions write_visible_through_every_reference.
+Print Assumptions write_is_replace_at.
+Print Assumptions separated_write_local.
+Print Assumptions append_fresh_separated.
 Print Assumptions camel_alias.
 Print Assumptions toDOM_matches_code.
 Print Assumptions known_names_are_plain.
